@@ -71,7 +71,9 @@ let chunks_str cs =
 
 let enc_of = function "j" -> EncJSON | "y" -> EncYAML | "t" -> EncTOML | _ -> EncDefault
 
-let bf_of ld li md mi = { last_d = str_of_hex ld; last_i = str_of_hex li; mid_d = str_of_hex md; mid_i = str_of_hex mi }
+let bf_of ld li md mi =
+  if ld = "D" then default_bfmt   (* no branch-format option given: the library's defaults *)
+  else { last_d = str_of_hex ld; last_i = str_of_hex li; mid_d = str_of_hex md; mid_i = str_of_hex mi }
 
 let exts_of s = if s = "-" then [] else List.map str_of_hex (String.split_on_char ',' s)
 
